@@ -248,14 +248,14 @@ def run(chk: Check):
                         cases.append(((a, b), (x, y), order, 1, 0, 'none' if (a + b) % 2 else 't1'))
     nB = len(cases)
     # (C) random
-    for _ in range(chk.n(9000, 120000)):
+    for _ in range(chk.n(30000, 300000)):
         nd = rng.choice([1, 2, 2, 3, 3, 3, 4, 4])
         shape = tuple(rng.choice([0, 1, 1, 2, 3, 4, 5, 5]) for _ in range(nd))
         ix = rand_index(rng, shape)
         cases.append((shape, ix, rng.choice('CF'), rng.choice([1, 1, 2, 3, 8, 16]), rng.choice([0, 0, 1, 17]),
                       rng.choice(HEURS + ['default', 'default'])))
     # larger shapes: thresholds matter
-    for _ in range(chk.n(300, 3000)):
+    for _ in range(chk.n(1000, 10000)):
         nd = rng.choice([2, 3])
         shape = tuple(rng.choice([1, 7, 16, 33]) for _ in range(nd))
         ix = rand_index(rng, shape, allow_bad=False)
@@ -299,6 +299,7 @@ def run(chk: Check):
         mh = 't256' if hname == 'default' else hname
         add(cid + '.d', f'defs {mh} {sh} {w} {off} {order} {ixs}', exp=e_defs)
         small = len(raw) <= 2100
+        add(cid + '.v', f'ixvalid {sh} {ixs}', m=('hyp', want is not None))
         if small:
             add(cid + '.s', f'fsl {mh} x{raw.hex()} {sh} {w} {off} {order} {ixs}', exp=e_fsl,
                 m=(shape, ixs, order, w, off, hname))
@@ -370,6 +371,23 @@ def run(chk: Check):
                               model_output=got[:200], impl_output=exp[:200],
                               predicate='model and implementation disagree; the property predicate holds on this case',
                               found_input=False, theorem='correspondence C06/Model.v <-> nibabel/fileslice.py')
+    # hypothesis of C06_fileslice_eq_numpy (canonical index valid) must hold exactly when NumPy accepts the index
+    nh = nh_bad = 0
+    for cid, m in meta.items():
+        if m[0] != 'hyp':
+            continue
+        nh += 1
+        got = mod.get(cid, '<missing>')
+        if (got == 'ok 1') != m[1]:
+            nh_bad += 1
+            chk.disagreements += 1
+            if nh_bad <= 2:
+                chk.violation('correspondence', case=[l for l in lines if l.startswith(cid + ' ')][0][:300], model_output=got,
+                              impl_output=f'NumPy accepts index: {m[1]}',
+                              predicate='hypothesis ix_valid of theorem C06_fileslice_eq_numpy does not coincide with NumPy '
+                                        'accepting the index', found_input=False, theorem='C06_fileslice_eq_numpy hypothesis coverage')
+    chk.extra['theorem_hypothesis_cases'] = nh
+    chk.extra['theorem_hypothesis_mismatches'] = nh_bad
     chk.extra['model_lines'] = len(lines)
     chk.extra['spec_validation_cases'] = len(spec)
     chk.extra['correspondence_cases'] = len(expect)
